@@ -14,7 +14,8 @@ FLAGS = ["emit_interface", "emit_json_tags", "emit_db_tags", "emit_prepared_quer
 # names chosen to collide after Go-casing / singularisation, or to be Go keywords / the generator's own identifiers
 TABLES = ["user", "users", "order_item", "order_items", "status", "type", "items", "queries", "db_tx", "author", "authors", "row", "q"]
 COLUMNS = ["id", "name", "type", "range", "err", "ctx", "q", "row", "rows", "items", "sql", "arg", "i", "count", "user_id", "created_at", "ids", "func", "db"]
-COLTYPES = ["int", "bigint", "text", "text NOT NULL", "uuid", "uuid[]", "timestamptz", "timestamptz[]", "json", "inet", "boolean", "status_t", "numeric", "bytea", "text[]", "interval", "macaddr"]
+COLTYPES = ["int", "bigint", "text", "text NOT NULL", "uuid", "uuid[]", "timestamptz", "timestamptz[]", "json", "inet", "boolean", "status_t", "numeric", "bytea", "text[]", "interval", "macaddr",
+            "public.status_t", "status_t NOT NULL", "public.status_t[]", "pg_catalog.int4", "pg_catalog.timestamptz NOT NULL"]
 QNAMES = ["GetOne", "List", "Create", "db", "New", "Queries", "WithTx", "Prepare", "Close", "DBTX", "Querier", "Del", "Exec2", "getOne"]
 
 
@@ -84,6 +85,10 @@ def gen_input_from(rng, TABLES, COLUMNS, QNAMES, benign):
                                         {"go_type": {"import": "database/sql", "package": "orm", "type": "NullInt64"}, "db_type": "pg_catalog.int8", "nullable": True}])]
     if rng.random() < 0.15:
         cfg["rename"] = {rng.choice(["id", "name", "type"]): rng.choice(["Ident", "Type", "Err"])}
+    if "emit_json_tags" in flags and rng.random() < 0.5:
+        pkg["json_tags_case_style"] = rng.choice(["camel", "pascal", "snake", "none"])
+    if rng.random() < 0.15:
+        cfg.setdefault("overrides", []).append({"go_type": "example.com/app/ids.Key", "column": "%s.%s" % (tabs[0], cols[tabs[0]][0])})
     out = {"sqlc.json": json.dumps(cfg), "schema.sql": "\n".join(lines) + "\n", "query.sql": "\n\n".join(queries) + "\n"}
     if files_split:
         out["query.sql"] = "\n\n".join(queries[:1]) + "\n"
@@ -94,7 +99,7 @@ def gen_input_from(rng, TABLES, COLUMNS, QNAMES, benign):
     return out
 
 
-HEADER = "From Verif Require Import Spec.GoPkgWf Judge.J01.\nOpen Scope string_scope. Open Scope list_scope.\n"
+HEADER = "From Verif Require Import Spec.GoPkgWf Model.GoGen Judge.J01.\nOpen Scope string_scope. Open Scope list_scope.\n"
 WF_CLASS = {1: "duplicate_top_level_identifier", 2: "duplicate_method_or_field", 3: "qualifier_used_but_not_imported",
             4: "import_not_used", 5: "parameter_or_local_declared_twice", 6: "parameter_or_local_shadows_a_package",
             7: "parameter_or_local_declared_twice"}
@@ -123,6 +128,32 @@ def j01_coq(r):
         pkg = coqlist(["(%s, %s)" % (coqstr(i), coqstr(p)) for i, p in groups[1]])
         fs.append("(mkFO %s %s %s %s)" % (coqstr(key), std, pkg, coqlist([coqstr(x) for x in summ.get("qualifiers", [])])))
     return "(j01 %s %s)" % (importer_coq(r), coqlist(fs))
+
+
+def gst_coq(st):
+    return "(mkGSt %s (%s, %s) %s)" % (coqstr(st["name"]), coqstr(st.get("table_schema", "")), coqstr(st.get("table_rel", "")),
+                                      coqlist(["(%s, %s, %s)" % (coqstr(f["name"]), coqstr(f["type"]), coqstr(f["tag"])) for f in st["fields"]]))
+
+
+def vo_coq(v):
+    st = v.get("struct")
+    return "(mkVO %s %s %s %s)" % (coqbool(v["emit"]), coqstr(v["name"]), coqstr(v["typ"]), "None" if not st else "(Some %s)" % gst_coq(st))
+
+
+def settings_coq(s_):
+    ovs = coqlist(["(mkGov %s %s %s %s %s %s %s %s)" % (coqstr(o["go_type_name"]), coqstr(o["column"]), coqstr(o["column_name"]), coqstr(o["table_catalog"]),
+                                                       coqstr(o["table_schema"]), coqstr(o["table_rel"]), coqstr(o["db_type"]), coqbool(o["nullable"]))
+                   for o in s_["overrides"]])
+    ren = coqlist(["(%s, %s)" % (coqstr(k), coqstr(v)) for k, v in s_["rename"]])
+    return "(mkGS %s %s %s %s %s)" % (ovs, ren, coqbool(s_["db_tags"]), coqbool(s_["json_tags"]), coqstr(s_["json_style"]))
+
+
+def j01_gen_coq(g):
+    """buildQueries: what the compiler produced + catalog + settings + model structs  ->  Arg / Ret of every query (hook) vs Model/GoGen"""
+    from qcommon import catalog_coq, query_coq
+    qs = coqlist(["(%s, %s)" % (query_coq(x), coqstr(x["filename"])) for x in g["compiled"]])
+    obs = coqlist(["(mkQO %s %s %s %s %s)" % (coqstr(x["method"]), coqstr(x["cmd"]), coqstr(x["source"]), vo_coq(x["ret"]), vo_coq(x["arg"])) for x in g["queries"]])
+    return "(j01_gen %s %s %s %s %s)" % (settings_coq(g["settings"]), catalog_coq(g["catalog"]), coqlist([gst_coq(x) for x in g["structs"]]), qs, obs)
 
 
 def pkg_coq(summary):
@@ -270,6 +301,13 @@ def run(tier, seed):
                 elif diff & 2:
                     rep.violation("correspondence corr:C01:file_uses broken: the package qualifiers in an emitted file are not those Spec/GoFileUses reads off the templates",
                                   dict(inputs[i], **view), no_input=True)
+            # the generator's data layer: buildQueries (Arg / Ret of every query) against Model/GoGen, exactly
+            for (i, g), v in zip(gok, coq_eval(HEADER, [j01_gen_coq(g) for _, g in gok], tag="c01gen")):
+                rep.count("buildQueries:%s" % ("model=code" if v[0] == 0 else "differ"))
+                if v[0] != 0:
+                    k = v[0] - 1
+                    rep.violation("correspondence corr:C01:buildQueries broken: the Arg / Ret values golang.buildQueries hands to the templates differ from Model/GoGen.build_queries (query #%d by method name)" % v[0],
+                                  dict(inputs[i], generator_value=g["queries"][k] if k < len(g["queries"]) else None, verdict=v[0]), no_input=True)
             rep.count("compiles", len(pk) - len(errs))
             rep.count("does-not-compile", len(errs))
     finally:
